@@ -319,7 +319,7 @@ def build(tier):
                                 descr='State wrapper keeps locked_funds = sum of the vesting table and moves it by exactly the returned amounts',
                                 bounds='%d table entries' % n, max_paths=60000))
     for n in ([0, 1, 2] if tier == 'quick' else [0, 1, 2, 3]):
-        O.append(Obligation('miner.withdraw_balance[vesting entries=%d]' % n, run_withdraw(n), props_withdraw,
+        O.append(Obligation('miner.withdraw_balance[vesting entries=%d]' % n, run_withdraw(n), props_withdraw, scenario=miner_scenario('WithdrawBalance', lambda E, res, m: {'amount_requested': str(ev(m, fget(E, res.ctx.env['params'], 0, TOKEN).v))}),
                             descr='withdraw pays min(requested, balance - vesting - deposits - pledge - fee debt, quota) to the beneficiary only, on request of owner/beneficiary, never with pending early terminations; fee debt burnt in full; solvency kept',
                             bounds='%d vesting entries; arbitrary MinerInfo / term; one call' % n, max_paths=100000))
     O.append(Obligation('miner.locked_reward_from_reward', run_locked_reward, props_locked_reward,
